@@ -809,7 +809,7 @@ func TestVerifC07(t *testing.T) {
 // the quick tier, which must not depend on timing, has none; lengths up to 4 MiB are covered).
 func c07giantBudget() int {
 	if vu.Thorough() {
-		return 40
+		return 16
 	}
 	return 0
 }
